@@ -87,8 +87,21 @@ def cs_contains(cs, cp):
 _CAT_CACHE = {}
 
 
+_ASCII_CATS = {
+    "space": ((9, 13), (32, 32)),
+    "digit": ((48, 57),),
+    "word": ((48, 57), (65, 90), (95, 95), (97, 122)),
+}
+# re.ASCII is a whole-pattern flag (scoped (?a:...) is refused): set while
+# one pattern is being translated
+_ASCII = [False]
+
+
 def category(name):
-    """Exact CPython code-point sets for \\s \\d \\w (str patterns)."""
+    """Exact CPython code-point sets for \\s \\d \\w (str patterns; the
+    ASCII-only sets of Modules/_sre under re.ASCII)."""
+    if _ASCII[0]:
+        return _ASCII_CATS[name]
     if name not in _CAT_CACHE:
         pred = {"space": str.isspace, "digit": str.isdecimal,
                 "word": lambda c: c.isalnum() or c == "_"}[name]
@@ -240,9 +253,13 @@ def charsets_of_pattern(pattern):
                 raise AnalysisError("regex construct %s outside the analysable "
                                     "vocabulary" % op)
     p = parse(pattern)
-    if p.state.flags & (re.MULTILINE | re.DOTALL | re.VERBOSE | re.ASCII):
+    if p.state.flags & (re.MULTILINE | re.DOTALL | re.VERBOSE):
         raise AnalysisError("regex flags not supported: %r" % pattern)
-    visit(p, bool(p.state.flags & re.IGNORECASE))
+    _ASCII[0] = bool(p.state.flags & re.ASCII)
+    try:
+        visit(p, bool(p.state.flags & re.IGNORECASE))
+    finally:
+        _ASCII[0] = False
     return out
 
 
@@ -257,6 +274,21 @@ def cs_ignorecase(cs):
     simple one-to-one lower-case mapping).  Tables only; no pattern is run."""
     global _TOLOWER
     import _sre
+    if _ASCII[0]:
+        # re.ASCII: only the ASCII letters are cased (ascii_tolower)
+        def low_(c):
+            return c + 32 if 65 <= c <= 90 else c
+        T = {low_(x) for lo, hi in cs
+             for x in (range(lo, hi + 1) if hi < 128 else
+                       list(range(lo, min(hi, 127) + 1)))}
+        out = set()
+        for lo, hi in cs:
+            if hi >= 128:
+                out.add((max(lo, 128), hi))
+        for c in range(128):
+            if low_(c) in T:
+                out.add((c, c))
+        return cs_norm(sorted(out))
     try:
         from re._casefix import _EXTRA_CASES as extra
     except ImportError:   # pragma: no cover
@@ -430,10 +462,14 @@ def build_nfa(pattern):
         raise AnalysisError("regex construct %s outside the analysable "
                             "vocabulary" % op)
 
-    if p.state.flags & (re.MULTILINE | re.DOTALL | re.VERBOSE | re.ASCII):
+    if p.state.flags & (re.MULTILINE | re.DOTALL | re.VERBOSE):
         raise AnalysisError("regex flags not supported: %r" % pattern)
     nfa.start = nfa.new()
-    end = seq(p, nfa.start, bool(p.state.flags & re.IGNORECASE))
+    _ASCII[0] = bool(p.state.flags & re.ASCII)
+    try:
+        end = seq(p, nfa.start, bool(p.state.flags & re.IGNORECASE))
+    finally:
+        _ASCII[0] = False
     nfa.accept = end
     return nfa
 
